@@ -166,7 +166,8 @@ int main(int argc, char** argv) {
   for (const Cfg& base : cfgs) for (int wiring = 0; wiring < 4; wiring++) {
     if ((item++ % a.nshards) != a.shard) continue;
     Cfg cfg = base; cfg.wiring = wiring;
-    std::vector<uint32_t> deltas = {1, (uint32_t)cfg.timeout / 2, cfg.timeout, 1000, (uint32_t)cfg.init * 1000, (uint32_t)cfg.sync * 1000, (uint32_t)cfg.sync * 2000};
+    // 65536 and 65536 + timeout/2: waits whose low 16 bits are below the timeout (a 16-bit elapsed-time slip must not hide them)
+    std::vector<uint32_t> deltas = {1, (uint32_t)cfg.timeout / 2, cfg.timeout, 1000, (uint32_t)cfg.init * 1000, (uint32_t)cfg.sync * 1000, (uint32_t)cfg.sync * 2000, 65536u, 65536u + (uint32_t)cfg.timeout / 2};
     std::sort(deltas.begin(), deltas.end()); deltas.erase(std::unique(deltas.begin(), deltas.end()), deltas.end());
     World::maxDelta = deltas.back();
     std::vector<Ev> alpha;
